@@ -17,8 +17,15 @@ package csr
 //@   flag logged
 //@   ensures [policy-is-defined] err == nil ==> (result0 == "NONS" || result0 == "NSOK")
 //@   ensures err != nil ==> (result0 == "" && result1 == "")
+//@   ensures [single-command-string: 3..6 tokens, policy last but one, handler last] (len(osArgs) == 1 && err == nil) ==> (
+//@     3 <= splitCount(osArgs[0], " ") && splitCount(osArgs[0], " ") <= 6 &&
+//@     result0 == splitPart(osArgs[0], " ", splitCount(osArgs[0], " ") - 2) && result1 == splitPart(osArgs[0], " ", splitCount(osArgs[0], " ") - 1))
+//@   ensures [single-command-string: wrong token count is an error] (len(osArgs) == 1 && (splitCount(osArgs[0], " ") < 3 || splitCount(osArgs[0], " ") > 6)) ==> err != nil
 //@   loop 1:
 //@     invariant args == nil || fresh(arr(args))
+//@     invariant rangeindex == -1 ==> len(args) == 0
+//@     invariant (len(osArgs) == 1 && rangeindex == 0) ==> (len(args) == splitCount(osArgs[0], " ") &&
+//@       forall(j, 0 <= j && j < len(args), args[j] == splitPart(osArgs[0], " ", j)))
 
 //@ func NewReqParam(envGetter, osArgsGetter)
 //@   flag purecallbacks
